@@ -41,6 +41,7 @@ DEFAULT_PROFILE = {
   "lookup_chain": 1,
   "then_fail": 3,
   "hide_field": 0.5,
+  "retype_empty": 1,
   "remove_readd": 2,
   "add_empty_column": 2,
   "stale_undo": 1,
@@ -261,6 +262,13 @@ class Gen(object):
         if tf:
           opts += ["$%s.%s" % (r["colId"], rng.choice(tf)["colId"])]
     opts += ["$id * 3", "1 + 1", "'k'", "None"]
+    if rng.random() < 0.5:
+      # a column that does not exist (yet): AttributeError now; a later rename / add under exactly this id
+      # must bring the formula to life
+      opts += [rng.choice(["$zz1", "$zz2 * 2", "rec.zz1", "len(str($zz2))"])]
+      ot = [t2 for t2 in w.user_tables() if t2 is not t]
+      if ot:
+        opts += ["%s.lookupOne().zz1" % rng.choice(ot)["tableId"]]
     if rng.random() < 0.04:
       opts = ["$nosuchcol + 1", "1/0", "foo(", "import os"]      # invalid / erroring formulas
     return rng.choice(opts)
@@ -445,6 +453,8 @@ class Gen(object):
     new = self.new_name()
     if self.rng.random() < 0.15 and len(cols) > 1:
       new = self.rng.choice(cols)["colId"]        # collides: must be disambiguated
+    elif self.rng.random() < 0.15:
+      new = self.rng.choice(["zz1", "zz2"])       # ids that formulas may already mention (see formula_for)
     return ["RenameColumn", t["tableId"], c["colId"], new]
 
   def g_label_change(self, w):
@@ -1074,6 +1084,29 @@ class Gen(object):
     next_ref = max(list(w.cols_by_ref) + [0]) + 1
     return ([["AddColumn", t["tableId"], name, {"type": "Ref:%s" % st["tableId"], "isFormula": False}],
              ["SetDisplayFormula", t["tableId"], None, next_ref, "$%s.%s" % (name, self.rng.choice(vcs)["colId"])]],)
+
+  def g_retype_empty(self, w):
+    """Change the type of an EMPTY column (isFormula with no formula text) while it stays empty: its cells are
+    the type's default, produced by generated code for the empty formula."""
+    rng = self.rng
+    cands = [(t, c) for t in w.user_tables() for c in w.visible_cols(t)
+             if c["isFormula"] and not c["formula"] and not c["summarySourceCol"]]
+    if not cands or rng.random() < 0.25:
+      t = self._table(w)
+      if not t:
+        return None
+      name = self.new_name()
+      add = ["AddColumn", t["tableId"], name, rng.choice([{}, {"type": "Any"}, {"type": "Text"}])]
+      if rng.random() < 0.6:
+        return ([add, ["ModifyColumn", t["tableId"], name, {"type": rng.choice(["Numeric", "Int", "Bool", "Choice"])}]],)
+      return add
+    t, c = rng.choice(cands)
+    newt = rng.choice([x for x in ["Numeric", "Int", "Text", "Bool", "Date", "Choice", "ChoiceList", "Any", "Numeric", "Text",
+                                   "Ref:%s" % t["tableId"]] if x != c["type"]])
+    if rng.random() < 0.3:
+      # remove and re-add under the same id with another type
+      return ([["RemoveColumn", t["tableId"], c["colId"]], ["AddColumn", t["tableId"], c["colId"], {"type": newt}]],)
+    return ["ModifyColumn", t["tableId"], c["colId"], {"type": newt}]
 
   def g_hide_field(self, w):
     """Hide a column in a widget (remove the view field), preferring group-by fields of summary widgets."""
